@@ -4,6 +4,7 @@ import (
 	"flag"
 	"fmt"
 	"os"
+	"regexp"
 	"sort"
 	"strings"
 )
@@ -30,6 +31,8 @@ func main() {
 			code = cmdDump(os.Args[2:])
 		case "list":
 			code = cmdList(os.Args[2:])
+		case "sweep":
+			code = cmdSweep(os.Args[2:])
 		case "check":
 			code = cmdCheck(os.Args[2:])
 		case "replay":
@@ -156,7 +159,7 @@ func cmdDump(args []string) int {
 			continue
 		}
 		fn.WriteTo(os.Stdout)
-		res := e.verifyFunc(fn, &fnOpts{houdini: true}, nil)
+		res := e.genFunc(fn, &fnOpts{houdini: true}, &solverCfg{workers: 16})
 		if res.err != "" {
 			fmt.Println(res.err)
 			continue
@@ -169,5 +172,90 @@ func cmdDump(args []string) int {
 			fmt.Println(o.ctx.queryText(o, true))
 		}
 	}
+	return 0
+}
+
+// cmdSweep: statistics of the zero-annotation safety sweep over functions matching a regexp.
+func cmdSweep(args []string) int {
+	fs := flag.NewFlagSet("sweep", flag.ExitOnError)
+	verbose := fs.Bool("v", false, "list undischarged obligations")
+	file := fs.String("file", "", "restrict to functions defined in this file (suffix match)")
+	fs.Parse(args)
+	e := mustLoad()
+	pat := ".*"
+	if fs.NArg() > 0 {
+		pat = fs.Arg(0)
+	}
+	re := regexp.MustCompile(pat)
+	var keys []string
+	for k, fn := range e.funcs {
+		if !re.MatchString(k) || len(fn.Blocks) == 0 {
+			continue
+		}
+		if *file != "" {
+			pos := e.fset.Position(fn.Pos())
+			if !strings.HasSuffix(pos.Filename, *file) {
+				continue
+			}
+		}
+		keys = append(keys, k)
+	}
+	sort.Strings(keys)
+	cfg := &solverCfg{quickMs: 3000, fullMs: 5000, workers: 16, seed: 1}
+	type row struct {
+		res *fnResult
+	}
+	rows := make([]*fnResult, len(keys))
+	sem := make(chan struct{}, 4)
+	done := make(chan int)
+	for i, k := range keys {
+		go func(i int, k string) {
+			sem <- struct{}{}
+			rows[i] = e.genFunc(e.funcs[k], &fnOpts{houdini: true}, cfg)
+			<-sem
+			done <- i
+		}(i, k)
+	}
+	for range keys {
+		<-done
+	}
+	var all []*Oblig
+	for _, r := range rows {
+		all = append(all, r.obligs...)
+	}
+	solveObligs(all, cfg)
+	tot, ok, outside, clean := 0, 0, 0, 0
+	for _, r := range rows {
+		if r.err != "" {
+			outside++
+			fmt.Printf("%-50s OUTSIDE %s\n", r.key, r.err)
+			continue
+		}
+		n, d := 0, 0
+		for _, o := range r.obligs {
+			n++
+			if o.Status == "discharged" {
+				d++
+			}
+		}
+		tot += n
+		ok += d
+		if n == d {
+			clean++
+		}
+		mark := "ok"
+		if n != d {
+			mark = "FAIL"
+		}
+		fmt.Printf("%-50s %-4s %d/%d\n", r.key, mark, d, n)
+		if *verbose {
+			for _, o := range r.obligs {
+				if o.Status != "discharged" {
+					fmt.Printf("      %-8s %s @%s %s\n", o.Status, o.Name, o.PosStr, o.Detail)
+				}
+			}
+		}
+	}
+	fmt.Printf("functions=%d clean=%d outside-subset=%d obligations=%d discharged=%d\n", len(rows), clean, outside, tot, ok)
 	return 0
 }
